@@ -72,6 +72,7 @@ fn emit_argv_builders(file: &syn::File, which: &[(&str, &str, &str)], v: &mut St
         eq: "beq",
         take_default: "(@nil N)",
         mcalls: vec![],
+            mmethods: vec![],
         display: vec![("port", "(show_port {v})"), ("docker_port_command_port", "(show_port {v})")],
     };
     for (ty, name, params) in which {
